@@ -72,6 +72,20 @@ DoNLayer(hl, vl) ==
      /\ ws' = n
      /\ Step("NLayer", <<hl, vl>>, n)
 
+\* every voxel replaced by its ancestor dh / dv levels up (ExtendedSpatialID.Higher), as far as its zoom allows
+DoHigher(dh, dv) ==
+  /\ "Higher" \in Ops
+  /\ ws # {}
+  /\ ws' = {Higher(s, MinOf(dh, s[1]), MinOf(dv, s[4])) : s \in ws}
+  /\ Step("Higher", <<dh, dv>>, ws')
+
+\* the 6 / 8 / 26 neighbours of one member join the working set
+AroundOf(s, k) == Range(IF k = 6 THEN N6(s, TRUE) ELSE IF k = 8 THEN N8(s, TRUE) ELSE N26(s, TRUE))
+DoAround(s, k) ==
+  /\ "Around" \in Ops
+  /\ ws' = ws \cup AroundOf(s, k)
+  /\ Step("Around", <<s, k>>, AroundOf(s, k))
+
 \* query: does the working set overlap the probe? (state unchanged)
 DoOverlap(b) ==
   /\ "Overlap" \in Ops
@@ -91,7 +105,9 @@ DoGeom(s) ==
   /\ ws' = ws
   /\ Step("Geom", s, Vertices(s))
 
-Next == \/ \E s \in ws : DoNotation(s)
+Next == \/ \E s \in ws, k \in {6, 8, 26} : DoAround(s, k)
+        \/ \E dh \in 0..2, dv \in 0..2 : DoHigher(dh, dv)
+        \/ \E s \in ws : DoNotation(s)
         \/ \E s \in ws : DoGeom(s)
         \/ \E h \in Zooms, v \in Zooms : Lookup(pt, h, v)
         \/ \E h \in Zooms, v \in Zooms : DoChangeZoom(h, v)
@@ -181,6 +197,33 @@ C08_Count == IsOp("NLayer") =>
          LET n == NLayer({s}, last.a[1], last.a[2], TRUE) IN
            /\ Cardinality(n) = (2 * last.a[1] + 1) * (2 * last.a[1] + 1) * (2 * last.a[2] + 1) - 1
            /\ s \notin n
+
+\* neighbours, stated on index distances: same zooms, not the voxel itself, at most one step away on
+\* every axis (east-west and north-south distances taken around the world), and for the
+\* 6-neighbourhood exactly one step in total, for the 8-ring none vertically
+CycAbs(d, n) == LET r == d % n IN MinOf(r, n - r)
+AroundDef(s, k) ==
+  {t \in {<<s[1], x, y, s[4], f>> : x \in 0..(Pow2(s[1]) - 1), y \in 0..(Pow2(s[1]) - 1), f \in (s[5] - 1)..(s[5] + 1)} :
+     LET ax == CycAbs(t[2] - s[2], Pow2(s[1]))
+         ay == CycAbs(t[3] - s[3], Pow2(s[1]))
+         af == IF t[5] >= s[5] THEN t[5] - s[5] ELSE s[5] - t[5]
+     IN  /\ t # s /\ ax <= 1 /\ ay <= 1
+         /\ (k = 6 => ax + ay + af = 1)
+         /\ (k = 8 => af = 0)}
+C08_AroundDef == IsOp("Around") =>
+   LET s == last.a[1]  k == last.a[2] IN
+     /\ last.res \ {s} = AroundDef(s, k)                      \* (on grids narrower than the stencil the voxel is its own neighbour)
+     /\ (3 <= Pow2(s[1]) => Cardinality(last.res) = k /\ s \notin last.res)
+     /\ \A t \in last.res : s \in AroundOf(t, k)              \* symmetric
+     /\ AroundOf(s, 6) \subseteq AroundOf(s, 26) /\ AroundOf(s, 8) \subseteq AroundOf(s, 26)
+     /\ AroundOf(s, 26) = NLayer({s}, 1, 1, TRUE)
+\* Higher: the one voxel of the coarser grid that contains the original
+C03_HigherContains == IsOp("Higher") =>
+   \A s \in last.pre :
+      LET dh == MinOf(last.a[1], s[1])  dv == MinOf(last.a[2], s[4])  t == Higher(s, dh, dv) IN
+        /\ t \in last.res /\ t[1] = s[1] - dh /\ t[4] = s[4] - dv
+        /\ Region(s) \subseteq Region(t)
+        /\ ChangeZoomDef({s}, t[1], t[4]) = {t}
 
 \* C09: hierarchy laws, evaluated on every ChangeZoom / Merge step
 C09_InThenOut == IsOp("ChangeZoom") =>
